@@ -155,6 +155,10 @@ def run(out: Outcome, drv, prop):
         # primitives against the installed numpy, data and mask
         from props import np_prims
         np_prims.run(out, drv, 400 if out.tier == "quick" else 6000)
+    if prop in ("C09", "C10", "C13"):
+        # ... and their composition in context: intermediate arrays of the transcriptions vs the locals of the running functions
+        from props import np_mid
+        np_mid.run(out, drv, prop, 150 if out.tier == "quick" else 2500)
     corp = fx.corpus_items(prop)
     if corp:
         fx.run_cases(out, drv, corp, verdict, WHAT[prop])
